@@ -3,10 +3,6 @@
 #[verifier::external_body]
 pub fn float_fn_to_f(n: i64) -> (r: Result<f64, EvalError>) ensures r == classify_spec(f_of_i64(n as int)) { unimplemented!() }
 #[verifier::external_body]
-pub fn float_i_to_f(n: &Integer) -> (r: Result<f64, EvalError>) ensures r == classify_spec(f_of_int(n.v())) { unimplemented!() }
-#[verifier::external_body]
-pub fn float_r_to_f(n: &Rational) -> (r: Result<f64, EvalError>) ensures r == classify_spec(f_of_q(*n)) { unimplemented!() }
-#[verifier::external_body]
 pub fn add_f(a: f64, b: f64) -> (r: Result<OrderedFloat<f64>, EvalError>)
     ensures match classify_spec(f_add(a, b)) { Ok(z) => r == Ok::<OrderedFloat<f64>, EvalError>(OrderedFloat(z)), Err(e) => r == Err::<OrderedFloat<f64>, EvalError>(e) }
 { unimplemented!() }
@@ -148,8 +144,6 @@ impl OrderedFloat<f64> {
 }
 pub uninterp spec fn f_signum(a: f64) -> f64;
 #[verifier::external_body] pub fn of64_is_zero(f: OrderedFloat<f64>) -> (r: bool) ensures r == f_is_zero(f.0) { unimplemented!() }
-#[verifier::external_body]
-pub fn result_f(n: &Number) -> (r: Result<f64, EvalError>) ensures r == classify_spec(flt(*n)) { unimplemented!() }
 
 // ---- gcd: Euclid's algorithm on naturals is the reference definition
 pub open spec fn gcd_nat(a: nat, b: nat) -> nat decreases b { if b == 0 { a } else { gcd_nat(b, a % b) } }
@@ -235,3 +229,13 @@ impl Clone for Atom { #[verifier::external_body] fn clone(&self) -> (r: Self) en
 impl Copy for Atom {}
 pub uninterp spec fn f_round(a: f64) -> f64;
 #[verifier::external_body] pub fn f64_round(f: f64) -> (r: f64) ensures r == f_round(f) { unimplemented!() }
+
+// src/arithmetic.rs classify_float (K: classify_float_spec, all 2^64 bit patterns)
+#[verifier::external_body]
+pub fn classify_float(f: f64) -> (r: Result<f64, EvalError>) ensures r == classify_spec(f) { unimplemented!() }
+#[verifier::external_body] pub fn i64_as_f64(n: i64) -> (r: f64) ensures r == f_of_i64(n as int) { unimplemented!() }
+#[verifier::external_body] pub struct Approx { _p: u8 }
+impl Approx { pub uninterp spec fn val(&self) -> f64;
+    #[verifier::external_body] pub fn value(self) -> (r: f64) ensures r == self.val() { unimplemented!() } }
+impl Integer { #[verifier::external_body] pub fn to_f64(&self) -> (r: Approx) ensures r.val() == f_of_int(self.v()) { unimplemented!() } }
+impl Rational { #[verifier::external_body] pub fn to_f64(&self) -> (r: Approx) ensures r.val() == f_of_q(*self) { unimplemented!() } }
